@@ -10,6 +10,8 @@ mod coord;
 mod engines;
 mod gen;
 mod gtext;
+mod hashgen;
+mod hashtwins;
 mod kside;
 mod lr;
 mod model;
@@ -96,6 +98,7 @@ fn main() {
         }
         Some("selftest") => engines::selftest(),
         Some("oneshot") if args.len() >= 2 => engines::stress::oneshot_main(&args[1]),
+        Some("mk-hashtwins") if args.len() >= 2 => hashgen::main(&args[1]),
         Some("digest") if args.len() >= 2 => engines::text::digest_main(&args[1]),
         Some("layoutprobe") if args.len() >= 2 => engines::text::layoutprobe_main(&args[1]),
         Some("stress-dump") if args.len() >= 3 => {
